@@ -51,7 +51,7 @@ var positions = exprpos.Positions
 
 func typeFor(pos string, rng interface{ Intn(int) int }) gen.Ty {
 	switch pos {
-	case "where", "join-on":
+	case "where", "join-on", "join-on-nested":
 		return gen.TBool
 	case "take":
 		return gen.TInt
@@ -136,7 +136,7 @@ func generate(w *mon.W) {
 		}
 		x := g.Gen(typeFor(pos, rng), 1+rng.Intn(7))
 		noNulls := false
-		if pos == "join-on" {
+		if pos == "join-on" || pos == "join-on-nested" {
 			if i%3 == 0 {
 				// every column on a random side: == between the sides may end up anywhere
 				x = freeJoinify(x, rng)
@@ -225,7 +225,7 @@ func Check(c *Case, r *mon.R) {
 			env := exprpos.ToEnv(row)
 			got := sqlmini.Eval(sx2, &sqlmini.Ctx{Row: env})
 			same := val.Same(got, want[i])
-			if c.Pos == "join-on" {
+			if c.Pos == "join-on" || c.Pos == "join-on-nested" {
 				same = exprpos.IsTrue(got) == exprpos.IsTrue(want[i])
 			}
 			if !same {
@@ -416,8 +416,14 @@ func wideTyped() []posExpr {
 		}
 		out = append(out, posExpr{cat, "extend"}, posExpr{in, "where"})
 		for _, op := range []string{"and", "or"} {
+			other := map[string]string{"and": "or", "or": "and"}[op]
 			e := bools[0]
 			for i := 1; i <= n; i++ {
+				if i%5 == 2 || i == n {
+					// an operand that is a group of the other logical operator
+					e = Bin(op, e, Bin(other, bools[i%len(bools)], bools[(i+1)%len(bools)]))
+					continue
+				}
 				if i%3 == 0 {
 					e = Bin(op, bools[i%len(bools)], e) // right-nested now and then
 				} else {
